@@ -207,12 +207,16 @@ def _window_rules(rep, prog):
     FB = cppflow.Flow(bb)
     legacy = _enum(prog, 'bxdecay0::legacy_modebb_type')
     comp = set()
+    opaque_guard = None
     for n in FB.nodes(kind='assign'):
         if cppflow.mentions(n.stmt[1], 'toallevents') and n.stmt[2][0] != 'num':
             for b2 in FB.nodes(kind='branch'):
                 c = FB.resolve_flags(b2.stmt[1])
                 if FB.dominates(b2, n) and n.id in FB.reach(b2.succ[0]) and n.id not in FB.reach(b2.succ[1]):
                     eqs = [x for x in ir.subexprs(c) if x[0] == 'op' and x[1] == '==' and cppflow.mentions(x, 'modebb')]
+                    if not eqs and not cppflow.mentions(c, 'modebb') and any(x[0] in ('var', 'call') for x in ir.subexprs(c)) and \
+                            not any(k_ in ir.fmt(c) for k_ in ('istartbb', 'ebb1', 'ebb2', 'trace', 'debug')):
+                        opaque_guard = b2          # e.g. `fe2_func != nullptr`: the mode set is hidden behind a lookup
                     if eqs and all(y[0] == 'op' and y[1] in ('or', '==') for y in ir.subexprs(c)
                                    if y[0] == 'op' and y[1] not in ('==',) or False):
                         comp |= {int(z[1]) for x in eqs for z in x[2:] if z[0] == 'num'}
@@ -220,7 +224,11 @@ def _window_rules(rep, prog):
     lm = {int(rest[1]): int(w) for w, rest, no in docs.lis('resources/description/dbd_modes.lis')
           if rest[1].lstrip('-').isdigit() and int(rest[1]) >= 0}
     comp_bx = sorted(comp)
-    rep.add('WINDOW', 'capable-list', where(wer),
+    if opaque_guard is not None and listed != comp_bx:
+        rep.cannot_decide('WINDOW', where(bb, opaque_guard.line), 'capable-list: the full/window ratio is computed under `%s`, which is not a '
+                          'test of the mode itself: the set of modes cannot be read off' % ir.fmt(opaque_guard.stmt[1])[:60])
+    else:
+      rep.add('WINDOW', 'capable-list', where(wer),
             'window-capable modes %s = modes for which decay0_bb computes the full/window ratio %s' % (listed, comp_bx),
             listed == comp_bx, None if listed == comp_bx else ['bb.cc computes toallevents for modes %s' % comp_bx])
 
